@@ -9,6 +9,7 @@
 #include "h_common.h"
 #include <aws/common/allocator.h>
 #include <aws/common/atomics.h>
+#include <aws/common/hash_table.h>
 #include <aws/common/logging.h>
 #include <pthread.h>
 #include <sched.h>
@@ -181,6 +182,56 @@ static struct aws_allocator s_parents[4] = {
     {.mem_acquire = s_par_acquire, .mem_release = s_par_release, .mem_realloc = NULL, .mem_calloc = NULL},
 };
 static struct aws_allocator *s_parent = &s_parents[0];
+/* passed as the `deprecated` argument of aws_mem_tracer_new, which must ignore it: any call lands here */
+static long s_decoy_calls;
+static void *s_decoy_acquire(struct aws_allocator *a, size_t size) {
+    (void)a;
+    ++s_decoy_calls;
+    return s_par_acquire(s_parent, size);
+}
+static void s_decoy_release(struct aws_allocator *a, void *p) {
+    (void)a;
+    ++s_decoy_calls;
+    s_par_release(s_parent, p);
+}
+static void *s_decoy_realloc(struct aws_allocator *a, void *p, size_t o, size_t n) {
+    (void)a;
+    ++s_decoy_calls;
+    return s_par_realloc(s_parent, p, o, n);
+}
+static void *s_decoy_calloc(struct aws_allocator *a, size_t n, size_t sz) {
+    (void)a;
+    ++s_decoy_calls;
+    return s_par_calloc(s_parent, n, sz);
+}
+static struct aws_allocator s_decoy = {
+    .mem_acquire = s_decoy_acquire, .mem_release = s_decoy_release, .mem_realloc = s_decoy_realloc, .mem_calloc = s_decoy_calloc};
+/* real library allocators as the wrapped allocator (threads stage only: keep/move is theirs to decide) */
+static struct aws_allocator *s_real;
+static void *s_real_acquire(struct aws_allocator *a, size_t size) {
+    (void)a;
+    __atomic_fetch_add(&s_par_live, 1, __ATOMIC_SEQ_CST);
+    return s_real->mem_acquire(s_real, size);
+}
+static void s_real_release(struct aws_allocator *a, void *p) {
+    (void)a;
+    __atomic_fetch_sub(&s_par_live, 1, __ATOMIC_SEQ_CST);
+    s_real->mem_release(s_real, p);
+}
+static void *s_real_realloc(struct aws_allocator *a, void *p, size_t o, size_t n) {
+    (void)a;
+    if (!p) {
+        __atomic_fetch_add(&s_par_live, 1, __ATOMIC_SEQ_CST);
+    }
+    return s_real->mem_realloc(s_real, p, o, n);
+}
+static void *s_real_calloc(struct aws_allocator *a, size_t n, size_t sz) {
+    (void)a;
+    __atomic_fetch_add(&s_par_live, 1, __ATOMIC_SEQ_CST);
+    return s_real->mem_calloc(s_real, n, sz);
+}
+static struct aws_allocator s_real_parent = {
+    .mem_acquire = s_real_acquire, .mem_release = s_real_release, .mem_realloc = s_real_realloc, .mem_calloc = s_real_calloc};
 static int s_cfg_of(const char *s) {
     return !strcmp(s, "full") ? 0 : !strcmp(s, "norealloc") ? 1 : !strcmp(s, "nocalloc") ? 2 : !strcmp(s, "minimal") ? 3 : -1;
 }
@@ -231,6 +282,8 @@ struct sink {
     size_t hdr_bytes, hdr_count;
     size_t n, sizes[SINK_MAX];
     size_t by_bytes_b, by_bytes_c, by_count_b, by_count_c, nstack_lines;
+    size_t last_by_bytes, last_by_count, order_bad;
+    bool have_by_bytes, have_by_count;
     size_t max_depth;
     size_t lines;
 };
@@ -284,9 +337,19 @@ static int s_sink_log(struct aws_logger *lg, enum aws_log_level lvl, aws_log_sub
         s_sink.by_bytes_b += a;
         s_sink.by_bytes_c += b;
         ++s_sink.nstack_lines;
+        if (s_sink.have_by_bytes && a > s_sink.last_by_bytes) {
+            ++s_sink.order_bad; /* "Stacks by bytes leaked" must be listed largest first */
+        }
+        s_sink.have_by_bytes = true;
+        s_sink.last_by_bytes = a;
     } else if (sscanf(buf, "%zu allocations leaking %zu bytes:", &a, &b) == 2) {
         s_sink.by_count_c += a;
         s_sink.by_count_b += b;
+        if (s_sink.have_by_count && a > s_sink.last_by_count) {
+            ++s_sink.order_bad; /* "Stacks by number of leaks" must be listed most leaks first */
+        }
+        s_sink.have_by_count = true;
+        s_sink.last_by_count = a;
     }
     return AWS_OP_SUCCESS;
 }
@@ -349,6 +412,10 @@ static void s_emit_blk(const void *p, size_t size) {
     }
 }
 static void s_emit_stat(void) {
+    if (s_decoy_calls) {
+        printf("P MONITOR the tracer used the deprecated allocator argument (%ld call(s))\n", s_decoy_calls);
+        s_decoy_calls = 0;
+    }
     if (s_par_bad_old) {
         printf("P MONITOR wrapped allocator got %ld realloc request(s) with an altered old size\n", s_par_bad_old);
         s_par_bad_old = 0;
@@ -500,6 +567,9 @@ static void s_emit_dump(void) {
                 s_sink.by_count_c,
                 sum,
                 s_sink.n);
+        }
+        if (s_sink.order_bad) {
+            printf("P MONITOR dump lists %zu stack(s) out of order (by bytes / by count must be descending)\n", s_sink.order_bad);
         }
         if (s_sink.max_depth > s_eff_frames) {
             printf("P MONITOR dump stack of %zu frames exceeds frames_per_stack %zu\n", s_sink.max_depth, s_eff_frames);
@@ -728,8 +798,20 @@ static int s_interpreter(void) {
             size_t frames = hc_parse_size(t[2]);
             s_book_live = 0;
             s_parent = &s_parents[cfg];
-            s_tr = aws_mem_tracer_new(s_parent, NULL, (enum aws_mem_trace_level)lvl, frames);
+            s_tr = aws_mem_tracer_new(s_parent, &s_decoy, (enum aws_mem_trace_level)lvl, frames);
             s_lock_depth = 0;
+            {
+                /* the tracer's table is keyed by address with aws_hash_ptr / aws_ptr_eq: two addresses that differ only
+                 * above bit 32 (or only in bit 0) are different blocks.  Equal hash codes are needed before the table
+                 * ever asks aws_ptr_eq, so no history would show this: probe the two callbacks directly. */
+                const void *a1 = (const void *)(uintptr_t)0x00007f0012345670ull;
+                const void *a2 = (const void *)(uintptr_t)0x00007e0012345670ull;
+                const void *a3 = (const void *)(uintptr_t)0x00007f0012345671ull;
+                if (aws_ptr_eq(a1, a2) || aws_ptr_eq(a1, a3) || !aws_ptr_eq(a1, a1) || aws_hash_ptr(a1) != aws_hash_ptr(a1) ||
+                    (aws_hash_ptr(a1) == aws_hash_ptr(a2) && aws_hash_ptr(a1) == aws_hash_ptr(a3))) {
+                    printf("P MONITOR aws_ptr_eq / aws_hash_ptr do not tell distinct addresses apart\n");
+                }
+            }
             s_level = lvl;
             s_eff_frames = frames > 128 ? 128 : frames;
             s_eff_frames = s_eff_frames ? s_eff_frames : 8;
@@ -922,9 +1004,14 @@ static int s_threads(int argc, char **argv) {
         fprintf(stderr, "usage: memtrace threads <seed> <nthreads> <rounds> <ops> <level> <frames> [full|norealloc|nocalloc|minimal]\n");
         return 2;
     }
-    int cfg = argc == 9 ? s_cfg_of(argv[8]) : 0;
-    HC_CHECK(cfg >= 0);
-    s_parent = &s_parents[cfg];
+    if (argc == 9 && (!strcmp(argv[8], "default") || !strcmp(argv[8], "aligned"))) {
+        s_real = !strcmp(argv[8], "default") ? aws_default_allocator() : aws_aligned_allocator();
+        s_parent = &s_real_parent;
+    } else {
+        int cfg = argc == 9 ? s_cfg_of(argv[8]) : 0;
+        HC_CHECK(cfg >= 0);
+        s_parent = &s_parents[cfg];
+    }
     uint64_t seed = strtoull(argv[2], NULL, 10);
     unsigned nt = (unsigned)atoi(argv[3]);
     unsigned rounds = (unsigned)atoi(argv[4]);
@@ -935,7 +1022,7 @@ static int s_threads(int argc, char **argv) {
     signal(SIGALRM, s_watchdog);
     alarm(90);
     s_threads_mode = true;
-    s_tr = aws_mem_tracer_new(s_parent, NULL, (enum aws_mem_trace_level)lvl, frames);
+    s_tr = aws_mem_tracer_new(s_parent, &s_decoy, (enum aws_mem_trace_level)lvl, frames);
     s_level = lvl;
     for (unsigned i = 0; i < nt; ++i) {
         s_w[i].id = i;
@@ -971,7 +1058,7 @@ static int s_threads(int argc, char **argv) {
             wc += s_w[i].nlive;
             errs += s_w[i].errors;
         }
-        errs += s_par_bad_old;
+        errs += s_par_bad_old + s_decoy_calls;
         printf(
             "P quiescent round=%u bytes=%zu count=%zu live_bytes=%zu live_count=%zu level=%d content_errors=%ld\n",
             r,
